@@ -544,7 +544,7 @@ def _job_shut(job):
 
     st = explorer.explore(shut_factory, case, bound, max_execs=60000, max_passes=1500, on_exec=on_exec)
     if st["truncated"]:
-        part.cap(f"execution cap hit for {case['name']}")
+        part.cap(f"execution cap hit for {case['name']} (complete up to bound {st['completed_bound']}, {st['executions']} executions reported)")
     part.sample({"section": "shutdown", "case": case["name"], "bound": bound, "executions": st["executions"]})
     return part
 
